@@ -153,7 +153,9 @@ func (enc Encryptor) Encrypt(pt *Plaintext, ct interface{}) (err error) {
 		case *Ciphertext:
 			*ct.MetaData = *pt.MetaData
 			level := utils.Min(pt.Level(), ct.Level())
-			ct.Resize(ct.Degree(), level)
+			// A fresh encryption has degree at most 1: a reused receiver of higher
+			// degree must not keep its previous components.
+			ct.Resize(utils.Min(ct.Degree(), 1), level)
 			if err = enc.EncryptZero(ct); err != nil {
 				return fmt.Errorf("cannot Encrypt: %w", err)
 			}
